@@ -141,6 +141,9 @@ class TravBase(Check):
             qs = rng.sample(qs, sample)
         if rng.random() < 0.3:
             lines.append("flag on")
+            # read-only calls of other kinds in between must not disturb the order of later traversals
+            for _ in range(min(6, len(qs) // 8)):
+                qs.insert(rng.randrange(len(qs) + 1), "plain V%d tok %d" % (nv, rng.choice([0, 1, 2, 4])))
         return run_script(real, lines + qs)
 
     def search(self, tier, rng, real, v):
@@ -199,7 +202,13 @@ class C06(TravBase):
         got = self.parse_list(real, out)
         if uni is not None and len(uni.vertices) == 0:
             return None
-        want = reach_set(uni, start, d, k, via)
+        from edgegraph.structure import Vertex
+        caching = Vertex.NEIGHBOR_CACHING
+        Vertex.NEIGHBOR_CACHING = False
+        try:
+            want = reach_set(uni, start, d, k, via)
+        finally:
+            Vertex.NEIGHBOR_CACHING = caching
         if want is None:
             return "%s returned although neighbors() of a reachable vertex raises" % line
         if res is not None:
@@ -258,10 +267,15 @@ class C07(TravBase):
         got = self.parse_list(real, out)
         if uni is not None and len(uni.vertices) == 0:
             return None
+        from edgegraph.structure import Vertex
+        caching = Vertex.NEIGHBOR_CACHING
+        Vertex.NEIGHBOR_CACHING = False        # the order is a function of the graph's LINK ORDER alone
         try:
             want = textbook(kind, uni, start, d, k, via)
         except Exception as exc:  # noqa: BLE001
             return "textbook %s raised %s but the call returned" % (kind, type(exc).__name__)
+        finally:
+            Vertex.NEIGHBOR_CACHING = caching
         if res is not None:
             want = [x for x in want if res(x)]
         if len(got) != len(want) or any(a is not b for a, b in zip(got, want)):
